@@ -32,6 +32,9 @@ CLAIMED = {
  "C08": dict(level="fault_enumeration", tech="property-based testing of seal (metamorphic sealed-vs-unsealed oracle) + fault enumeration of post-seal operations and wire mutations",
    text="Every generated token is sealed; the sealed token must verify on all entry points with unchanged blocks, accessors and revocation ids, authorize exactly like the unsealed twin under generated authorizers, refuse all 12 extending operations on three paths (in memory, reloaded, unverified-then-verified), and no variant of the C01 catalogue (including attacker grafts) may verify with added, removed or altered blocks.",
    note="authorizers are total typed programs; re-encoding of the seal signature itself is not counted (no block changes)", ref="4 C08"),
+ "C09": dict(level="exploration", tech="structure-aware generation of hostile inputs (adversarial protobuf messages properly signed by the reference signer, mutated valid encodings, random bytes, operand grids) swept over every parsing entry point and every accessor in crash-isolated child processes with a watchdog",
+   text="28 k (quick) / 400 k (thorough) generated inputs - signed adversarial and edited blocks in authority / first-party / third-party position, mutated and random token bytes and base64, adversarial and edited snapshots, policies, third-party requests and blocks, key strings / bytes / PEM / DER, Datalog text, plus an exhaustive grid of operators over extreme integers - go to every entry point that accepts them; every object obtained is swept (all block indices including out-of-range, print, seal, append, third party, authorizer build / run / authorize / query / dump / snapshot / restore). No panic (caught and attributed), no abort or stack overflow (child death), no hang (30 s watchdog, reproduced twice).",
+   note="'hang' means 30 s without an answer under limits of 200 ms / 20 iterations / 500 facts; memory exhaustion would show as child death; a non-reproducible watchdog expiry is reported as inconclusive (exit 2)", ref="4 C09"),
  "C10": dict(level="exploration", tech="property-based testing of call histories over program families with model-known cost, limits drawn from boundary sets, invariants checked after every call under a virtual clock (hook)",
    text="Seven program families (chain, exponential join, expensive iteration / non-productive iteration / check / query, ticking chain) whose iteration, fact and tick cost is computed by the reference fixpoint are run under limit triples around that cost and call histories of length 1-4 (run/authorize/query/query_all/query_exactly_one), in an authorizer or in a token. After every call: no panic; success implies iterations, facts and virtual time within budget; a program needing more than a budget never succeeds; limit errors are prompt (8 ticks, 2x facts + 64); budgets are cumulative.",
    note="time is a per-thread virtual clock advanced by an extern function (hook H1, guarded); promptness allowances are stated constants; real-time behaviour under load is not measured", ref="4 C10"),
